@@ -72,6 +72,9 @@ var c14Scenarios = [][]c14Op{
 	// small MultipleMatch that has to build the big value's search set first
 	{{"NM", "@E0", ""}, {"MM", "x the quick brown fox y", ""}},
 	{{"MM", "@E0", ""}, {"NM", "@E0", ""}},
+	// scenario 19/20: a value of 4.6 KB is ADDED while a query runs
+	{{"MM", "x the quick brown fox y", ""}, {"ADD", "@BIGA", "K3"}},
+	{{"MM", "x the quick brown fox y", ""}, {"ADD", "@BIGA", "K3"}, {"NM", "lazy dog jumped", ""}},
 }
 
 // c14InvalidFirst (scenarios 15/16): an invalid-UTF-8 value is registered while the classifier is built.
